@@ -44,6 +44,20 @@ func StoreBase(addr ssa.Value) (kind string, base ssa.Value) {
 			if cal := x.Call.StaticCallee(); cal != nil && load.InModule(cal) && cal.Blocks != nil && returnsParamRooted(cal, 0) {
 				return "param", x
 			}
+			if x.Call.StaticCallee() == nil && !x.Call.IsInvoke() && ResolveCallSite != nil {
+				// the selector is itself a function value: every function it resolved to
+				if fs, ok := ResolveCallSite(x); ok && len(fs) > 0 {
+					all := true
+					for _, f := range fs {
+						if !load.InModule(f) || f.Blocks == nil || !returnsParamRooted(f, 0) {
+							all = false
+						}
+					}
+					if all {
+						return "param", x
+					}
+				}
+			}
 			return "fresh-or-unknown", x
 		case *ssa.Phi:
 			all := len(x.Edges) > 0
@@ -83,10 +97,28 @@ type Effects struct {
 	MapUpdates   []string
 	Sends        []string
 	Stores       int
+	InitFns      map[*ssa.Function]bool
+}
+
+func outermost(fn *ssa.Function) *ssa.Function {
+	for fn.Parent() != nil {
+		fn = fn.Parent()
+	}
+	return fn
+}
+
+// ComputeEffectsInit is ComputeEffects with the set of functions that make up
+// package initialisation (see InitClosure), needed to judge captured variables.
+func ComputeEffectsInit(p *load.Program, fns []*ssa.Function, initFns map[*ssa.Function]bool) *Effects {
+	return computeEffects(p, fns, initFns)
 }
 
 func ComputeEffects(p *load.Program, fns []*ssa.Function) *Effects {
-	e := &Effects{GlobalReads: map[string][]string{}}
+	return computeEffects(p, fns, nil)
+}
+
+func computeEffects(p *load.Program, fns []*ssa.Function, initFns map[*ssa.Function]bool) *Effects {
+	e := &Effects{GlobalReads: map[string][]string{}, InitFns: initFns}
 	for _, fn := range fns {
 		for _, b := range fn.Blocks {
 			for _, in := range b.Instrs {
@@ -95,7 +127,15 @@ func ComputeEffects(p *load.Program, fns []*ssa.Function) *Effects {
 					e.Stores++
 					kind, base := StoreBase(x.Addr)
 					switch kind {
-					case "param", "local", "captured", "loaded-from-local":
+					case "captured":
+						// a variable captured by a function literal: private to the call that
+						// created the literal - unless the literal was created by package
+						// initialisation (a table of closures), then the variable is shared by
+						// every CPU and survives between calls
+						if e.InitFns != nil && fn.Parent() != nil && e.InitFns[outermost(fn)] {
+							e.GlobalStores = append(e.GlobalStores, fmt.Sprintf("%s: %s stores to a variable captured by a closure that package initialisation built (state shared by all CPUs)", p.Pos(in.Pos()), fn))
+						}
+					case "param", "local", "loaded-from-local":
 					case "global", "loaded-from-global":
 						e.GlobalStores = append(e.GlobalStores, fmt.Sprintf("%s: %s stores to package-level variable %s", p.Pos(in.Pos()), fn, base.Name()))
 					default:
